@@ -484,25 +484,30 @@ type Contract struct {
 	// loop clauses for the loops of callees inlined into this function ("loop 1 in (*seqbag).IterateAll",
 	// optionally "...#2" = only the 2nd inlining of that callee): key = callee key [+ "#k"]. Naming a callee here
 	// asks for it to be inlined in this function even when it has a contract of its own.
-	InlLoops  map[string]map[int]*LoopContract
-	Inline    bool
-	Trusted   bool // assumed contract (body not verified)
-	TrustWhy  string
-	Arith     string    // "" (math) or "wrap64"
-	Float     string    // "" (exact reals) or "xreal" (extended reals with NaN/Inf)
-	Asserts   []*Clause // assert_at
-	ChanInvs  []*Clause // chaninv <elem type> : P(elem)   assumed at every receive, proved at every send of a channel of that element type
-	Hints     []*Clause // proved at every return with the locals in scope, then assumed for the postconditions (not visible to callers)
-	Covers    []*Clause
-	Line      int
-	File      string
-	Notes     []string
-	MayPanic  bool // explicit panics allowed (documented behaviour)
-	NoTerm    bool
-	Params    []string // for extern contracts: parameter names
-	AllowExit bool
-	MakeLimit bool // opt-in: every make([]T, n) must also prove n*sizeof(T) <= 2^48 (runtime allocation limit)
-	Callbacks []*Callback
+	InlLoops   map[string]map[int]*LoopContract
+	Inline     bool
+	Trusted    bool // assumed contract (body not verified)
+	TrustWhy   string
+	Arith      string    // "" (math) or "wrap64"
+	Float      string    // "" (exact reals) or "xreal" (extended reals with NaN/Inf)
+	Asserts    []*Clause // assert_at
+	ChanInvs   []*Clause // chaninv <elem type> : P(elem)   assumed at every receive, proved at every send of a channel of that element type
+	Hints      []*Clause // proved at every return with the locals in scope, then assumed for the postconditions (not visible to callers)
+	Covers     []*Clause
+	Line       int
+	File       string
+	Notes      []string
+	MayPanic   bool // explicit panics allowed (documented behaviour)
+	NoTerm     bool
+	Params     []string // for extern contracts: parameter names
+	AllowExit  bool
+	MakeLimit  bool // opt-in: every make([]T, n) must also prove n*sizeof(T) <= 2^48 (runtime allocation limit)
+	Callbacks  []*Callback
+	Iterates   *IterProto // trusted iterator: how it drives the function literal it is given
+	IteratedBy string     // function literal: key of the iterator it is handed to (its iterinv/iterstop clauses follow that protocol)
+	IterInvs   []*Clause  // function literal: invariant indexed by $k = number of completed activations that returned false
+	IterStops  []*Clause  // function literal: holds when an activation returns true (the iterator stops there)
+	Preserves  []*Clause  // function literals only: one-state invariant over the captured variables (also a requires and an ensures)
 }
 
 // Callback (extern contracts): `callback fn x y v : dom` states that the callee calls its function parameter fn only
@@ -512,6 +517,18 @@ type Callback struct {
 	Fn   string
 	Vars []string
 	Dom  *Clause
+}
+
+// IterProto: `iterates <stable> ; <count> ; <arg>, <arg>, ...` in the trusted contract of an iterator whose body is
+//
+//	S := <stable>; for $k := 0; $k < <count>; $k++ { if it(<arg>...) { break } }
+//
+// <stable> is what the iterator reads once before the loop (the function literal must leave it unchanged); <count> and the
+// <arg>s (expressions over the iterator's parameters and $k) are read in the heap current at activation $k.
+type IterProto struct {
+	Stable, Count SExpr
+	Args          []SExpr
+	Text          string
 }
 
 type PureFunc struct {
@@ -571,7 +588,7 @@ var clauseKeywords = map[string]bool{
 	"func": true, "pure": true, "opaque": true, "ground": true, "sealed": true, "props": true, "requires": true, "ensures": true, "modifies": true,
 	"loop": true, "invariant": true, "decreases": true, "assert_at": true, "table": true, "axiom": true,
 	"lemma": true, "inline": true, "hint": true, "chaninv": true, "arith": true, "trusted": true, "cover": true, "note": true,
-	"maypanic": true, "noauto": true, "cases": true, "float": true, "ghostzero": true, "params": true, "allowexit": true, "extern": true, "makelimit": true, "callback": true,
+	"maypanic": true, "noauto": true, "cases": true, "float": true, "ghostzero": true, "params": true, "allowexit": true, "extern": true, "makelimit": true, "callback": true, "preserves": true, "iterates": true, "iterated_by": true, "iterinv": true, "iterstop": true,
 }
 
 // parseTags parses an optional "[C01,C02]" or "[name]" prefix
@@ -757,6 +774,92 @@ func ParseSpecFile(path, pkg, content string) (*SpecFile, error) {
 				cur.Requires = append(cur.Requires, c)
 			} else {
 				cur.Ensures = append(cur.Ensures, c)
+			}
+		case "preserves":
+			// preserves E (contract of a function literal): E is a one-state invariant over the captured variables.
+			// It is assumed at the entry of the literal and proved at each of its returns (requires + ensures). Where the
+			// literal is handed to a callee that is used through a contract with `modifies nothing` (an iterator that
+			// only calls its argument), E is proved in the caller before that call and assumed after it.
+			if cur == nil || !strings.Contains(cur.FuncKey, "$") {
+				return nil, fmt.Errorf("%s:%d: preserves belongs to the contract of a function literal", path, l.line)
+			}
+			for _, bad := range []string{"old(", "fresh(", "allocated(", "entry("} {
+				if strings.Contains(rest, bad) {
+					return nil, fmt.Errorf("%s:%d: preserves: %s...) is relative to one activation and cannot be used in a preserved invariant", path, l.line, bad)
+				}
+			}
+			for _, kind := range []string{"preserves", "requires", "ensures"} {
+				c, err := mkClause(kind, rest, l.line)
+				if err != nil {
+					return nil, err
+				}
+				switch kind {
+				case "preserves":
+					cur.Preserves = append(cur.Preserves, c)
+				case "requires":
+					cur.Requires = append(cur.Requires, c)
+				default:
+					cur.Ensures = append(cur.Ensures, c)
+				}
+			}
+		case "iterates":
+			parts := strings.Split(rest, ";")
+			if cur == nil || len(parts) != 3 {
+				return nil, fmt.Errorf("%s:%d: iterates needs '<stable> ; <count> ; <arg>, ...' inside a func contract", path, l.line)
+			}
+			ip := &IterProto{Text: rest}
+			var err error
+			if ip.Stable, err = ParseSpec(parts[0]); err != nil {
+				return nil, fmt.Errorf("%s:%d: %v", path, l.line, err)
+			}
+			if ip.Count, err = ParseSpec(parts[1]); err != nil {
+				return nil, fmt.Errorf("%s:%d: %v", path, l.line, err)
+			}
+			for _, a := range splitTop(parts[2]) {
+				e, err := ParseSpec(a)
+				if err != nil {
+					return nil, fmt.Errorf("%s:%d: %v", path, l.line, err)
+				}
+				ip.Args = append(ip.Args, e)
+			}
+			cur.Iterates = ip
+		case "iterated_by":
+			if cur == nil || !strings.Contains(cur.FuncKey, "$") {
+				return nil, fmt.Errorf("%s:%d: iterated_by belongs to the contract of a function literal", path, l.line)
+			}
+			cur.IteratedBy = strings.TrimSpace(rest)
+		case "iterinv", "iterstop":
+			// iterinv E($k): assumed at the entry of activation $k of the literal, E($k+1) proved when it returns false;
+			// iterstop E: proved when it returns true. At the iterator call: E(0) is proved before, and
+			// (E(count) || stop) is assumed after (see closurePreserves).
+			if cur == nil || cur.IteratedBy == "" {
+				return nil, fmt.Errorf("%s:%d: %s needs a preceding iterated_by clause", path, l.line, kw)
+			}
+			for _, bad := range []string{"old(", "fresh(", "allocated(", "entry("} {
+				if strings.Contains(rest, bad) {
+					return nil, fmt.Errorf("%s:%d: %s: %s...) is relative to one activation and cannot be used here", path, l.line, kw, bad)
+				}
+			}
+			c0, err := mkClause(kw, rest, l.line)
+			if err != nil {
+				return nil, err
+			}
+			if kw == "iterinv" {
+				cur.IterInvs = append(cur.IterInvs, c0)
+				c1, _ := mkClause("requires", rest, l.line)
+				cur.Requires = append(cur.Requires, c1)
+				c2, err := mkClause("ensures", "!result ==> ("+strings.ReplaceAll(rest, "$k", "($k + 1)")+")", l.line)
+				if err != nil {
+					return nil, err
+				}
+				cur.Ensures = append(cur.Ensures, c2)
+			} else {
+				cur.IterStops = append(cur.IterStops, c0)
+				c2, err := mkClause("ensures", "result ==> ("+rest+")", l.line)
+				if err != nil {
+					return nil, err
+				}
+				cur.Ensures = append(cur.Ensures, c2)
 			}
 		case "chaninv":
 			j := strings.Index(rest, ":")
